@@ -295,6 +295,23 @@ def r5(cx):
             if not calls and all(k in ("agg", "const") for k, _ in o): return "None", calls
             return "Some", calls
         rk, rc = kind(a.ops[0]); wk, wc = kind(a.ops[1]); sk, sc = kind(a.ops[3]); ck, cc = kind(a.ops[4]); tk, tc = kind(a.ops[5])
+        # path-sensitive refinement: when the constructor goes through a shared helper steered by a constant (an enum saying which
+        # halves to fill), the value each member has on the feasible paths is read from the abstract store at the aggregate
+        from vlib import absval
+        from vlib.cfg import enumerate_paths
+        cfg5 = Cfg(body)
+        paths = enumerate_paths(cfg5, 0, lambda blk: blk.idx == a.bb or blk.term.kind == "return", du=du, max_paths=4000)
+        seen = {i: set() for i in (0, 1, 4, 5)}
+        for pth in paths:
+            if pth[-1] != a.bb: continue
+            for kind_, b, x, st in absval.walk(body, du, cfg5, pth):
+                if kind_ == "stmt" and x is a:
+                    for i in seen:
+                        v = absval.operand_value(st, a.ops[i])
+                        seen[i].add("Some" if v is not None and v[0] == "var" and v[1] == 1 else "None" if v is not None and v[0] == "var" and v[1] == 0 else "?")
+        def refine(cur, i):
+            return seen[i].pop() if len(seen[i]) == 1 and "?" not in seen[i] else cur
+        rk, wk, ck, tk = refine(rk, 0), refine(wk, 1), refine(ck, 4), refine(tk, 5)
         why = []
         if want["rw"]:
             if not (rk == "Some" and "split" in rc): why.append("reader is not the read half of stream.split() (%s %s)" % (rk, rc))
